@@ -299,6 +299,19 @@ SPECIAL = [
     (["x", "st"], "len([x, st, x]) > 100 and (x, st) is None", {"x": 1, "st": "STRICTEQ"}),
     (["x", "we"], "[we, x][1] > 100", {"x": 1, "we": "WEIRDEQ"}),
     (["x", "we"], "len((x, we, [we])) > 100", {"x": 1, "we": "WEIRDEQ"}),
+    # calls / subscripts whose value is None are values like any other
+    (None, "d.get('zz') is not None and x > 100", {"d": {"a": 1}}),
+    (["xs", "x"], "xs[0] is not None and xs[1] > 100", {"xs": [None, 1], "x": 1}),
+    (["nf", "x"], "nf(x) is not None", {"nf": "NONEFUNC", "x": 1}),
+    (["d"], "d['k'] is not None or d.get('k') == 1", {"d": {"k": None}}),
+    # non-ASCII text in the condition (offsets in bytes and in characters differ)
+    (None, "s == 'k\u016f\u0148' and x > 100", {"s": "k\u016f\u0148", "x": 1}),
+    (None, "'\u00ab' + s == s or len(xs) > 100 or o.a > 100", {"s": "a", "xs": [1], "oa": 1}),
+    (["gr\u00f6\u00dfe", "x"], "gr\u00f6\u00dfe > 100 and x > gr\u00f6\u00dfe", {"gr\u00f6\u00dfe": 5, "x": 1}),
+    # the target of an assignment expression bound to something that is not representable
+    (None, "(k := len) is None or x > 100", {"x": 1}),
+    (None, "(k := type(x)) is str", {"x": 1}),
+    (["xs"], "(c := xs.count)(0) == 99", {"xs": [1, 0]}),
     # C-level callables that are neither functions, methods nor built-in functions ARE values
     (["x", "key"], "x > 100", {"x": 1, "key": "METHDESC"}),
     (["x", "op"], "op is None and x > 100", {"x": 1, "op": "SLOTWRAP"}),
